@@ -770,7 +770,7 @@ impl<'a> Iterator for ReplicasOrderedNTSIterator<'a> {
                 for node in nodes_on_ring {
                     // If this node's DC has some replicas in this NTS...
                     if let Some(dc) = &node.datacenter
-                        && datacenter_repfactors.get(dc).is_some()
+                        && datacenter_repfactors.get(dc).is_some_and(|rf| *rf > 0)
                     {
                         // ...then this node must be the primary replica.
                         self.inner = ReplicasOrderedNTSIteratorInner::Picked {
